@@ -13,6 +13,9 @@ import Mathlib.Tactic.Abel
 import Mathlib.Tactic.Positivity
 import Mathlib.LinearAlgebra.Matrix.PosDef
 import Mathlib.Algebra.Order.Star.Real
+import Mathlib.Analysis.Calculus.Deriv.Basic
+import Mathlib.Analysis.Calculus.Deriv.Mul
+import Mathlib.Analysis.Calculus.Deriv.Add
 /-!
 # Lemmas for C07 (one GN / LM step): sums, segment location, block-diagonal weights, least squares
 All statements are about the model of `Pose/Model/GNStep.lean` at `α = ℝ`.
@@ -992,5 +995,298 @@ theorem damped_minimiser (J : Matrix (Fin m) (Fin n) ℝ) (W : Matrix (Fin m) (F
   linarith
 
 end damped
+
+/-! ## unfolding lemmas, call histories (helpers of the property theorems) -/
+
+section calls
+open Matrix
+/-- `split` raises exactly when the step has another length -/
+theorem step_raises_iff' (eps : ℝ) (ps : List (Param ℝ)) (lenD : Nat) (D : Nat → ℝ) :
+    stepUpdate eps ps lenD D = none ↔ trainTotal ps ≠ lenD := by
+  by_cases h : trainTotal ps = lenD <;> simp [stepUpdate, h]
+
+
+/-- **`update_slices`.**  After `update_parameter`, parameter `j` is `add_` of its own slice
+`D[trainOffset j …]` if it requires grad, and is untouched otherwise. -/
+theorem update_slices' (eps : ℝ) (ps out : List (Param ℝ)) (lenD : Nat) (D : Nat → ℝ)
+    (h : stepUpdate eps ps lenD D = some out) (j : Nat) (hj : j < ps.length) :
+    out.getD j default =
+      if (ps.getD j default).rg then addParam eps (ps.getD j default) (fun i => D (trainOffset ps j + i))
+      else ps.getD j default := by
+  unfold stepUpdate at h
+  by_cases ht : trainTotal ps = lenD
+  · simp only [ht, if_true, Option.some.injEq] at h
+    subst h
+    have := updateParams_getD eps ps D 0 j hj
+    simpa using this
+  · simp [ht] at h
+
+
+/-- **`gnSystem` is that system built from the corrected residuals.**  Whenever the step does not raise, the solver is
+handed `A = W · cat(J')`, `b = -W · cat(R')` with `(R', J')` the corrector outputs and `W` the block-diagonal weight. -/
+theorem gnSystem_spec' (n : Nat) (cs : List (Res ℝ → Res ℝ)) (rs : List (Res ℝ)) (rshapes : List (List Nat))
+    (weights : Option (List (List Nat × (Nat → ℝ)))) (S : Sys ℝ) (h : gnSystem n cs rs rshapes weights = some S) :
+    ∃ rs' W, correctAll cs rs = some rs' ∧ weightMat rshapes weights (totalRows rs') = some W ∧
+      S.m = totalRows rs' ∧ S.n = n ∧ S.A = gnA (totalRows rs') W (catJ rs') ∧ S.b = gnb (totalRows rs') W (catR rs') := by
+  unfold gnSystem at h
+  cases hc : correctAll cs rs with
+  | none => simp [hc] at h
+  | some rs' =>
+    simp only [hc] at h
+    cases hw : weightMat rshapes weights (totalRows rs') with
+    | none => simp [hw] at h
+    | some W =>
+      simp only [hw, Option.some.injEq] at h
+      subst h
+      exact ⟨rs', W, rfl, hw, rfl, rfl, rfl, rfl⟩
+
+
+/-- **`lmSystem` is that system built from the corrected residuals**, in every trial -/
+theorem lmSystem_spec' (n : Nat) (lo hi : ℝ) (cs : List (Res ℝ → Res ℝ)) (rs : List (Res ℝ)) (rshapes : List (List Nat))
+    (weights : Option (List (List Nat × (Nat → ℝ)))) (lams : List ℝ) (S : Sys ℝ)
+    (h : lmSystem n lo hi cs rs rshapes weights lams = some S) :
+    ∃ rs' W, correctAll cs rs = some rs' ∧ weightMat rshapes weights (totalRows rs') = some W ∧
+      S.A = lmAk (lmA0 (totalRows rs') lo hi W (catJ rs')) lams ∧
+      S.b = lmb (totalRows rs') (lmJT (totalRows rs') W (catJ rs')) (catR rs') := by
+  unfold lmSystem at h
+  cases hc : correctAll cs rs with
+  | none => simp [hc] at h
+  | some rs' =>
+    simp only [hc] at h
+    cases hw : weightMat rshapes weights (totalRows rs') with
+    | none => simp [hw] at h
+    | some W =>
+      simp only [hw, Option.some.injEq] at h
+      subst h
+      exact ⟨rs', W, rfl, hw, rfl, rfl⟩
+
+
+/-- a successful call changes the parameters exactly by `update_parameter` with the solver's `D` -/
+theorem successful_call (eps : ℝ) (sys : List (Param ℝ) → Option (Sys ℝ)) (solve : Sys ℝ → Option (Nat × (Nat → ℝ)))
+    (ps out : List (Param ℝ)) (h : gnCall eps sys solve ps = some out) :
+    ∃ S len D, sys ps = some S ∧ solve S = some (len, D) ∧ stepUpdate eps ps len D = some out := by
+  unfold gnCall at h
+  cases hs : sys ps with
+  | none => simp [hs] at h
+  | some S =>
+    cases hv : solve S with
+    | none => simp [hs, hv] at h
+    | some r =>
+      obtain ⟨len, D⟩ := r
+      simp only [hs, hv] at h
+      exact ⟨S, len, D, rfl, hv, h⟩
+
+
+/-- **A failing call is atomic.**  If building the system, the solver or the split fails, `gnCall` fails as a whole and
+the caller keeps exactly the parameters it had: nothing is written before every stage succeeded. -/
+theorem failed_call_atomic (eps : ℝ) (sys : List (Param ℝ) → Option (Sys ℝ)) (solve : Sys ℝ → Option (Nat × (Nat → ℝ)))
+    (ps : List (Param ℝ))
+    (h : sys ps = none ∨ (∃ S, sys ps = some S ∧ solve S = none) ∨
+         (∃ S len D, sys ps = some S ∧ solve S = some (len, D) ∧ trainTotal ps ≠ len)) :
+    gnCall eps sys solve ps = none ∧ callOrKeep (gnCall eps sys solve) ps = ps := by
+  have hn : gnCall eps sys solve ps = none := by
+    rcases h with h | ⟨S, h1, h2⟩ | ⟨S, len, D, h1, h2, h3⟩
+    · simp [gnCall, h]
+    · simp [gnCall, h1, h2]
+    · simp [gnCall, h1, h2, (step_raises_iff' eps ps len D).mpr h3]
+  exact ⟨hn, by simp [callOrKeep, hn]⟩
+
+
+/-- **Continuing after a failed call gives the history without it**, wherever in the history it happened and whatever the
+other calls are (any state type: parameters, or parameters together with `param_groups`). -/
+theorem history_without_failed_call {σ : Type} (pre post : List (σ → Option σ)) (c : σ → Option σ) (s : σ)
+    (h : c (runCalls pre s) = none) : runCalls (pre ++ [c] ++ post) s = runCalls (pre ++ post) s := by
+  simp only [runCalls, List.foldl_append, List.foldl_cons, List.foldl_nil]
+  have : callOrKeep c (List.foldl (fun s c => callOrKeep c s) s pre) = List.foldl (fun s c => callOrKeep c s) s pre := by
+    simp only [runCalls] at h
+    unfold callOrKeep at h ⊢
+    rw [h]; rfl
+  rw [this]
+
+
+/-- **Copies are independent.**  With two optimizers used in any interleaving, each ends where its own calls alone would
+have taken it: the model has no state outside the object a call is made on. -/
+theorem twins_independent {σ : Type} (cs : List (Bool × (σ → Option σ))) (s : σ × σ) :
+    (runTwins cs s).1 = runCalls ((cs.filter (·.1)).map (·.2)) s.1 ∧
+    (runTwins cs s).2 = runCalls ((cs.filter (fun c => !c.1)).map (·.2)) s.2 := by
+  induction cs generalizing s with
+  | nil => simp [runTwins, runCalls]
+  | cons c cs ih =>
+    obtain ⟨b, f⟩ := c
+    cases b
+    · have := ih (s.1, callOrKeep f s.2)
+      simp only [runTwins, List.foldl_cons, runCalls] at this ⊢
+      simpa using this
+    · have := ih (callOrKeep f s.1, s.2)
+      simp only [runTwins, List.foldl_cons, runCalls] at this ⊢
+      simpa using this
+
+
+
+/-- **Calls are independent.**  The model of a call is a function of that call's own data (residuals, Jacobian, weights,
+clamps, damping history): for any sequence of calls on one optimizer, the system handed to the solver in call `i` is the
+one a fresh optimizer would build from call `i`'s data alone.  (The model has no cross-call state; that the *code* has
+none is what the correspondence check over call histories with every per-call argument varied establishes.) -/
+theorem calls_independent (calls : List (Nat × ℝ × ℝ × List (Res ℝ → Res ℝ) × List (Res ℝ) × List (List Nat)
+      × Option (List (List Nat × (Nat → ℝ))) × List ℝ)) (i : Nat) (hi : i < calls.length) :
+    (calls.map fun c => lmSystem c.1 c.2.1 c.2.2.1 c.2.2.2.1 c.2.2.2.2.1 c.2.2.2.2.2.1 c.2.2.2.2.2.2.1 c.2.2.2.2.2.2.2)[i]?
+      = some (lmSystem calls[i].1 calls[i].2.1 calls[i].2.2.1 calls[i].2.2.2.1 calls[i].2.2.2.2.1 calls[i].2.2.2.2.2.1
+                calls[i].2.2.2.2.2.2.1 calls[i].2.2.2.2.2.2.2) := by
+  simp [List.getElem?_map, List.getElem?_eq_getElem hi]
+
+
+/-- **Trial histories compose**: the matrix after the dampings `lams₁ ++ lams₂` is the matrix after `lams₁` damped by
+`lams₂` — a trial depends on the earlier trials of the same call only through the matrix they left behind. -/
+theorem lm_Ak_append (A0 : Nat → Nat → ℝ) (lams₁ lams₂ : List ℝ) :
+    lmAk A0 (lams₁ ++ lams₂) = lmAk (lmAk A0 lams₁) lams₂ := by
+  simp [lmAk, List.foldl_append]
+
+
+/-- a weight passed to `step` overrides the constructor's; without it the constructor's is used -/
+theorem step_weight_overrides {ω : Type} (c : Option ω) (s : ω) :
+    selectWeight c (some s) = some s ∧ selectWeight c none = c := ⟨rfl, rfl⟩
+
+
+/-- LM's defaults satisfy the side conditions of `lm_Ak_posDef` / `lm_trial_minimises`: `0 < min ≤ max` -/
+theorem lm_defaults_ok : 0 < (lmConfig (α := ℝ) none none none).lo ∧
+    (lmConfig (α := ℝ) none none none).lo ≤ (lmConfig (α := ℝ) none none none).hi ∧
+    (lmConfig (α := ℝ) none none none).reject = 16 := by
+  refine ⟨?_, ?_, rfl⟩
+  · simp only [lmConfig, q_real]; positivity
+  · simp only [lmConfig, q_real, k_real]; norm_num
+
+
+
+/-- **End to end, Gauss–Newton.**  If `step` succeeds with a solver whose answer satisfies the normal equations of the
+system it was handed (the contract of `PINV` / `LSTSQ`), then: the residuals were corrected by the configured correctors,
+weighted by the block-diagonal weight; the step `D` is a least-squares solution of `W J' δ = -W R'`; and every parameter
+is `add_` of its own slice of `D` (frozen ones untouched). -/
+theorem gn_step_core (eps : ℝ) (n : Nat) (cs : List (Res ℝ → Res ℝ)) (rs : List (Res ℝ)) (rshapes : List (List Nat))
+    (weights : Option (List (List Nat × (Nat → ℝ)))) (solve : Sys ℝ → Option (Nat × (Nat → ℝ)))
+    (hsolve : ∀ S len D, solve S = some (len, D) →
+      (toMat S.m S.n S.A)ᵀ *ᵥ (toMat S.m S.n S.A *ᵥ toVec S.n D - toVec S.m S.b) = 0)
+    (ps out : List (Param ℝ))
+    (h : gnCall eps (fun _ => gnSystem n cs rs rshapes weights) solve ps = some out) :
+    ∃ rs' W len D, correctAll cs rs = some rs' ∧ weightMat rshapes weights (totalRows rs') = some W ∧
+      (∀ δ' : Fin n → ℝ,
+        nrm2 (toMat (totalRows rs') n (gnA (totalRows rs') W (catJ rs')) *ᵥ toVec n D - toVec (totalRows rs') (gnb (totalRows rs') W (catR rs')))
+          ≤ nrm2 (toMat (totalRows rs') n (gnA (totalRows rs') W (catJ rs')) *ᵥ δ' - toVec (totalRows rs') (gnb (totalRows rs') W (catR rs')))) ∧
+      (∀ j, j < ps.length → out.getD j default =
+        if (ps.getD j default).rg then addParam eps (ps.getD j default) (fun i => D (trainOffset ps j + i))
+        else ps.getD j default) ∧ trainTotal ps = len := by
+  obtain ⟨S, len, D, hS, hv, hu⟩ := successful_call eps _ solve ps out h
+  obtain ⟨rs', W, hc, hw, hm, hn, hA, hb⟩ := gnSystem_spec' n cs rs rshapes weights S hS
+  refine ⟨rs', W, len, D, hc, hw, ?_, ?_, ?_⟩
+  · intro δ'
+    have hne := hsolve S len D hv
+    rw [hm, hn, hA, hb] at hne
+    exact ls_of_normal _ _ _ hne δ'
+  · intro j hj
+    exact update_slices' eps ps out len D hu j hj
+  · by_contra hne
+    rw [(step_raises_iff' eps ps len D).mpr hne] at hu
+    exact absurd hu (by simp)
+
+
+end calls
+
+/-! ## helpers for the unweighted LM, the end-to-end theorems and their non-toy example -/
+
+section endtoend
+open Matrix
+/-- the identity weight on `m` rows -/
+def idW (m : Nat) : Nat → Nat → ℝ := fun r s => if r = s ∧ r < m then 1 else 0
+
+theorem lmJT_none_eq_id (m : Nat) (J : Nat → Nat → ℝ) (i s : Nat) (hs : s < m) :
+    lmJT m none J i s = lmJT m (some (idW m)) J i s := by
+  simp only [lmJT, sumN_eq, idW]
+  rw [Finset.sum_eq_single s]
+  · simp [hs]
+  · intro r _ hr; simp [hr]
+  · intro h; exact absurd (mem_range.mpr hs) h
+
+
+theorem toMat_idW (m : Nat) : toMat m m (idW m) = 1 := by
+  ext i j
+  simp only [toMat, idW, Matrix.one_apply]
+  by_cases h : i = j
+  · subst h; simp
+  · have : (i : Nat) ≠ (j : Nat) := fun e => h (Fin.ext e)
+    simp [h, this]
+
+
+/-- the solver contract used below: on the system it is handed, the solver returns a vector of the system's width that
+satisfies the normal equations and lies in the range of `Aᵀ` (what `pinv(A) @ b` does, `gn_pinv`) -/
+def PinvContract (S : Sys ℝ) (len : Nat) (D : Nat → ℝ) : Prop :=
+  len = S.n ∧
+  (toMat S.m S.n S.A)ᵀ *ᵥ (toMat S.m S.n S.A *ᵥ toVec S.n D - toVec S.m S.b) = 0 ∧
+  ∃ w : Fin S.m → ℝ, toVec S.n D = (toMat S.m S.n S.A)ᵀ *ᵥ w
+
+theorem assemble_getD (ps : List (Param ℝ)) (raw : List (RawRes ℝ)) (i : Nat) (hi : i < raw.length) :
+    (assemble ps raw).getD i default
+      = ⟨(raw.getD i ⟨0, fun _ => 0, fun _ _ _ => 0, []⟩).rows, (raw.getD i ⟨0, fun _ => 0, fun _ _ _ => 0, []⟩).R,
+         flattenRowJac (jacSpec ps) (raw.getD i ⟨0, fun _ => 0, fun _ _ _ => 0, []⟩).blk⟩ := by
+  simp [assemble, List.getD_eq_getElem?_getD, List.getElem?_map, List.getElem?_eq_getElem hi]
+
+
+theorem addParam_grp_item (eps : ℝ) (q : Param ℝ) (g : Grp) (hq : q.kind = .grp g) (e : Nat → ℝ) (t a : Nat) (ha : a < g.gdim) :
+    (addParam eps q e).data (t * g.gdim + a)
+      = retrItem eps g (fun c => q.data (t * g.gdim + c)) (fun c => e (t * g.gdim + c)) a := by
+  obtain ⟨e1, e2⟩ := div_mod_item g.gdim t a ha
+  simp only [addParam, hq, e1, e2]
+
+
+noncomputable def exPs : List (Param ℝ) := [⟨.euclid, 2, true, fun i => (i : ℝ)⟩, ⟨.euclid, 1, false, fun _ => 7⟩]
+noncomputable def exRaw : List (RawRes ℝ) :=
+  [⟨1, fun _ => 2, fun j _ _ => if j = 0 then 1 else 5, [1]⟩, ⟨1, fun _ => -1, fun j _ _ => if j = 0 then 1 else 5, [1]⟩]
+noncomputable def exW : Option (List (List Nat × (Nat → ℝ))) := some [([1, 1], fun _ => 2), ([1, 1], fun _ => 3)]
+
+theorem ex_blocks : allBlocks (α := ℝ) [[1], [1]] [([1, 1], fun _ => 2), ([1, 1], fun _ => 3)]
+    = some [⟨1, 1, 1, 1, fun _ _ _ => 2⟩, ⟨1, 1, 1, 1, fun _ _ _ => 3⟩] := by
+  simp [allBlocks, wblocks, prod]
+
+theorem ex_correct : correctAll (α := ℝ) [id] (assemble exPs exRaw) = some (assemble exPs exRaw) := by
+  simp [correctAll, assemble, exRaw, correctFrom, pickCorrector]
+
+theorem ex_rows : totalRows (assemble exPs exRaw) = 2 := by simp [totalRows, assemble, exRaw, total]
+theorem ex_n : trainTotal exPs = 2 := by simp [trainTotal, exPs]
+
+theorem ex_J (r c : Nat) (hr : r < 2) (hc : c < 2) : catJ (assemble exPs exRaw) r c = 1 := by
+  have : r = 0 ∨ r = 1 := by omega
+  have : c = 0 ∨ c = 1 := by omega
+  rcases ‹r = 0 ∨ r = 1› with rfl | rfl <;> rcases ‹c = 0 ∨ c = 1› with rfl | rfl <;>
+    simp [catJ, vcatM, assemble, exRaw, exPs, locate, jacSpec, flattenRowJac]
+
+theorem ex_R : catR (assemble exPs exRaw) 0 = 2 ∧ catR (assemble exPs exRaw) 1 = -1 := by
+  constructor <;> simp [catR, vcatV, assemble, exRaw, locate]
+
+theorem ex_W (r s : Nat) (hr : r < 2) (hs : s < 2) :
+    blockDiag (α := ℝ) [⟨1, 1, 1, 1, fun _ _ _ => 2⟩, ⟨1, 1, 1, 1, fun _ _ _ => 3⟩] r s = if r = s then (if r = 0 then 2 else 3) else 0 := by
+  have : r = 0 ∨ r = 1 := by omega
+  have : s = 0 ∨ s = 1 := by omega
+  rcases ‹r = 0 ∨ r = 1› with rfl | rfl <;> rcases ‹s = 0 ∨ s = 1› with rfl | rfl <;>
+    simp [blockDiag, locate, WBlocks.rows, WBlocks.cols]
+
+noncomputable def exSolve : Sys ℝ → Option (Nat × (Nat → ℝ)) := fun _ => some (2, fun _ => 1 / 26)
+
+theorem ex_system : ∃ S, gnSystemOf exPs exRaw [id] exW = some S ∧ S.m = 2 ∧ S.n = 2 ∧
+    (∀ r c, r < 2 → c < 2 → S.A r c = if r = 0 then 2 else 3) ∧ S.b 0 = -4 ∧ S.b 1 = 3 := by
+  have hsh : exRaw.map (·.rshape) = [[1], [1]] := by simp [exRaw]
+  have hw : weightMat (α := ℝ) [[1], [1]] exW 2
+      = some (some (blockDiag [⟨1, 1, 1, 1, fun _ _ _ => 2⟩, ⟨1, 1, 1, 1, fun _ _ _ => 3⟩])) := by
+    simp [weightMat, exW, ex_blocks, wRows, wCols, WBlocks.rows, WBlocks.cols, total]
+  refine ⟨⟨2, 2, gnA 2 (some (blockDiag [⟨1, 1, 1, 1, fun _ _ _ => 2⟩, ⟨1, 1, 1, 1, fun _ _ _ => 3⟩])) (catJ (assemble exPs exRaw)),
+            gnb 2 (some (blockDiag [⟨1, 1, 1, 1, fun _ _ _ => 2⟩, ⟨1, 1, 1, 1, fun _ _ _ => 3⟩])) (catR (assemble exPs exRaw))⟩,
+          ?_, rfl, rfl, ?_, ?_, ?_⟩
+  · simp only [gnSystemOf, gnSystem, ex_correct, ex_rows, ex_n, hsh, hw]
+  · intro r c hr hc
+    simp only [gnA, sumN, ex_W r 0 hr (by omega), ex_W r 1 hr (by omega), ex_J 0 c (by omega) hc, ex_J 1 c (by omega) hc, k_real]
+    have : r = 0 ∨ r = 1 := by omega
+    rcases this with rfl | rfl <;> simp
+  · simp only [gnb, sumN, ex_W 0 0 (by omega) (by omega), ex_W 0 1 (by omega) (by omega), ex_R.1, ex_R.2, k_real]; norm_num
+  · simp only [gnb, sumN, ex_W 1 0 (by omega) (by omega), ex_W 1 1 (by omega) (by omega), ex_R.1, ex_R.2, k_real]; norm_num
+
+
+end endtoend
 
 end PP.GNStep
